@@ -562,6 +562,21 @@ func vfInfra(err error) bool {
 	return false
 }
 
+// vfMaybeApplied: the outcome of a proposal that ended like this is unknown (it may still be applied later); a
+// repetition can then apply the command twice, so the block is reported as an infrastructure problem and run again
+func vfMaybeApplied(err error) bool {
+	if err == nil {
+		return false
+	}
+	if err == dragonboat.ErrTimeout || err == context.DeadlineExceeded {
+		return true
+	}
+	if st, ok := status.FromError(err); ok && (st.Code() == codes.DeadlineExceeded || st.Message() == dragonboat.ErrTimeout.Error()) {
+		return true
+	}
+	return false
+}
+
 var vfNHSeq uint64
 
 // ------------------------------------------------------------------ one NodeHost block
@@ -589,6 +604,7 @@ type vfHost struct {
 	keep    map[uint64]bool   // the next start of this shard id restarts the stopped replica (state is replayed)
 	ev      *vfSysListener
 	joining map[uint64]bool // shards started with join=true
+	unready map[uint64]bool // shards started without waiting, not yet waited for
 	kept    map[string]*vfKept
 }
 
@@ -720,6 +736,12 @@ func (h *vfHost) startMode(shard uint64, typ int, mode string) string {
 			}
 			h.joining[shard] = true
 		}
+		if !join {
+			if h.unready == nil {
+				h.unready = map[uint64]bool{}
+			}
+			h.unready[shard] = true
+		}
 		rep, pending := h.reported(shard)
 		return fmt.Sprintf("ok %d %d %d", rep, rid, pending)
 	}
@@ -744,6 +766,7 @@ func (h *vfHost) reported(shard uint64) (int, int) {
 
 func (h *vfHost) waitReady(shard uint64, rid uint64) string {
 	var err error
+	delete(h.unready, shard)
 	// wait until the single replica has elected itself (infrastructure, not under test)
 	deadline := time.Now().Add(20 * time.Second)
 	for {
@@ -799,6 +822,8 @@ func (h *vfHost) stop(shard uint64, mode string) string {
 		}
 	}
 	delete(h.types, shard)
+	delete(h.joining, shard)
+	delete(h.unready, shard)
 	delete(h.lsess, shard)
 	suffix := "/" + strconv.FormatUint(shard, 10)
 	for k := range h.fsess {
@@ -899,7 +924,175 @@ func vfSessTok(s *pb.Session) string {
 }
 
 // getSession: the facade call under test. Returns kind token and the session.
+// getSessionJoining: the shard is hosted but can not make progress (nobody to join): the facade call and the local
+// call of the kind the shard's type needs, both with the same short deadline, no retries
+func (h *vfHost) getSessionJoining(api *NodehostAPI, shard uint64) (string, *pb.Session) {
+	const d = 60 * time.Millisecond
+	var s *pb.Session
+	var err error
+	pan := vfGuard(func() {
+		ctx, cancel := context.WithTimeout(context.Background(), d)
+		defer cancel()
+		s, err = api.GetSession(ctx, &pb.SessionRequest{ShardId: shard})
+	})
+	if pan != "" {
+		return "panic " + pan, nil
+	}
+	if err == nil {
+		if s == nil {
+			return "nilsession", nil
+		}
+		nhs := ToNodeHostSession(s)
+		kind := "tracked"
+		if nhs.IsNoOPSession() {
+			kind = "noop"
+		}
+		valid := 0
+		if nhs.ShardID == shard && nhs.ValidForProposal(shard) {
+			valid = 1
+		}
+		return fmt.Sprintf("%s %d %s", kind, valid, vfSessTok(s)), s
+	}
+	local := "-"
+	if h.types[shard] != 3 {
+		var lerr error
+		lp := vfGuard(func() {
+			ctx, cancel := context.WithTimeout(context.Background(), d)
+			defer cancel()
+			_, lerr = h.nh.SyncGetSession(ctx, shard)
+		})
+		if lp != "" {
+			local = "panic"
+		} else {
+			local = vfErrName(lerr)
+		}
+	}
+	return fmt.Sprintf("jerr %s %s %s %s", vfCode(err), vfIsStatus(err), vfMsg(err), local), nil
+}
+
+// keep: a session through the facade and the local session of the same kind, both kept for later
+func (h *vfHost) keepSession(api *NodehostAPI, shard uint64, name string) string {
+	if h.kept == nil {
+		h.kept = map[string]*vfKept{}
+	}
+	tok, ps := h.getSession(api, shard)
+	if ps == nil {
+		return "nosession " + tok
+	}
+	var ls *client.Session
+	if ToNodeHostSession(ps).IsNoOPSession() {
+		ls = h.nh.GetNoOPSession(shard)
+	} else {
+		var err error
+		for tries := 0; tries < 4; tries++ {
+			ctx, cancel := h.ctx()
+			ls, err = h.nh.SyncGetSession(ctx, shard)
+			cancel()
+			if !vfInfra(err) {
+				break
+			}
+		}
+		if err != nil {
+			return "nosession local " + vfErrName(err)
+		}
+	}
+	h.kept[name] = &vfKept{pb: ps, local: ls, shard: shard}
+	return "ok " + strings.Fields(tok)[0]
+}
+
+func (h *vfHost) handmade(name string, shard uint64, kind string) string {
+	if h.kept == nil {
+		h.kept = map[string]*vfKept{}
+	}
+	mk := func() *client.Session {
+		if kind == "noop" {
+			return &client.Session{ShardID: shard, ClientID: 424242, SeriesID: client.NoOPSeriesID}
+		}
+		return &client.Session{ShardID: shard, ClientID: 424242, SeriesID: client.SeriesIDFirstProposal, RespondedTo: 0}
+	}
+	h.kept[name] = &vfKept{pb: ToPBSession(mk()), local: mk(), shard: shard}
+	return "ok " + kind
+}
+
+// useKept: Propose / CloseSession with a session obtained earlier; both paths get the same command
+func (h *vfHost) useKept(api *NodehostAPI, name string, path string, op string) string {
+	k := h.kept[name]
+	if k == nil {
+		return "nokept"
+	}
+	cmd := []byte("kept-" + name)
+	noop := k.local.IsNoOPSession()
+	var err error
+	var done bool
+	unknown := false
+	pan := vfGuard(func() {
+		for tries := 0; tries < 4; tries++ {
+			ctx, cancel := h.ctx()
+			switch {
+			case op == "propose" && path == "l":
+				_, err = h.nh.SyncPropose(ctx, k.local, cmd)
+				if err == nil && !noop {
+					k.local.ProposalCompleted()
+				}
+			case op == "propose":
+				req := &pb.RaftProposal{Session: k.pb, Data: cmd}
+				_, err = api.Propose(ctx, req)
+				if err == nil && !noop {
+					nhs := ToNodeHostSession(req.Session)
+					nhs.ProposalCompleted()
+					*k.pb = *ToPBSession(nhs)
+				}
+			case op == "close" && path == "l":
+				// (the local call has no meaning for a no-op session: nothing is registered)
+				if noop {
+					done = true
+				} else {
+					c := *k.local
+					err = h.nh.SyncCloseSession(ctx, &c)
+					done = err == nil
+				}
+			case op == "close":
+				var r *pb.SessionResponse
+				r, err = api.CloseSession(ctx, k.pb)
+				done = r != nil && r.Completed
+			}
+			cancel()
+			if !vfInfra(err) {
+				break
+			}
+			unknown = unknown || vfMaybeApplied(err)
+		}
+	})
+	if pan != "" {
+		return "panic " + pan
+	}
+	if unknown {
+		return "infra proposal-timed-out"
+	}
+	if err == nil {
+		if op == "propose" {
+			if sh, ok := h.shadow[k.shard]; ok {
+				if _, hosted := h.types[k.shard]; hosted {
+					sh.apply(cmd)
+				}
+			}
+			return "ok"
+		}
+		if done {
+			return "ok completed"
+		}
+		return "ok notcompleted"
+	}
+	if path == "l" {
+		return "err " + vfErrName(err) + " -"
+	}
+	return fmt.Sprintf("err %s %s %s", vfCode(err), vfIsStatus(err), vfMsg(err))
+}
+
 func (h *vfHost) getSession(api *NodehostAPI, shard uint64) (string, *pb.Session) {
+	if h.joining[shard] {
+		return h.getSessionJoining(api, shard)
+	}
 	var s *pb.Session
 	var err error
 	tries := 0
@@ -913,7 +1106,13 @@ func (h *vfHost) getSession(api *NodehostAPI, shard uint64) (string, *pb.Session
 		if pan != "" {
 			return "panic " + pan, nil
 		}
-		if err != nil && vfInfra(err) && tries < 4 {
+		// (a shard that was started a moment ago drops requests until it has elected itself: the call is repeated, every
+		// repetition is a complete GetSession; an answer that is not a timing error is final)
+		maxTries := 4
+		if h.unready[shard] {
+			maxTries = 500
+		}
+		if err != nil && vfInfra(err) && tries < maxTries {
 			time.Sleep(20 * time.Millisecond)
 			continue
 		}
@@ -1000,6 +1199,7 @@ func (h *vfHost) propose(a string, api *NodehostAPI, shard uint64, path string, 
 			return "nosession " + vfErrName(err)
 		}
 		var res sm.Result
+		unknown := false
 		pan := vfGuard(func() {
 			for tries := 0; tries < 4; tries++ {
 				ctx, cancel := h.ctx()
@@ -1008,10 +1208,14 @@ func (h *vfHost) propose(a string, api *NodehostAPI, shard uint64, path string, 
 				if !vfInfra(err) {
 					break
 				}
+				unknown = unknown || vfMaybeApplied(err)
 			}
 		})
 		if pan != "" {
 			return "panic " + pan
+		}
+		if unknown {
+			return "infra proposal-timed-out"
 		}
 		if err != nil {
 			return "err " + vfErrName(err) + " -"
@@ -1031,6 +1235,7 @@ func (h *vfHost) propose(a string, api *NodehostAPI, shard uint64, path string, 
 	sent := vfSessTok(ps)
 	var resp *pb.RaftResponse
 	var err error
+	unknown := false
 	pan := vfGuard(func() {
 		for tries := 0; tries < 4; tries++ {
 			ctx, cancel := h.ctx()
@@ -1039,10 +1244,14 @@ func (h *vfHost) propose(a string, api *NodehostAPI, shard uint64, path string, 
 			if !vfInfra(err) {
 				break
 			}
+			unknown = unknown || vfMaybeApplied(err)
 		}
 	})
 	if pan != "" {
 		return "panic " + pan
+	}
+	if unknown {
+		return "infra proposal-timed-out"
 	}
 	if err != nil {
 		return fmt.Sprintf("err %s %s %s", vfCode(err), vfIsStatus(err), vfMsg(err))
@@ -1220,7 +1429,7 @@ func vfRunBlock(b *vfBlock) {
 		var res string
 		pan := vfGuard(func() {
 			switch t[0] {
-			case "A", "Q", "P", "R", "X", "E":
+			case "A", "Q", "P", "R", "X", "E", "G", "Y":
 				if api(t[1]) == nil {
 					res = "infra facade"
 					return
@@ -1248,6 +1457,17 @@ func vfRunBlock(b *vfBlock) {
 				res = h.errop(api(t[1]), u(t[2]), t[3], t[4])
 			case "K":
 				res = h.stop(u(t[1]), t[2])
+			case "SN", "SJ":
+				typ, _ := strconv.Atoi(t[2])
+				res = h.startMode(u(t[1]), typ, map[string]string{"SN": "nowait", "SJ": "join"}[t[0]])
+			case "W":
+				res = h.waitReady(u(t[1]), h.replica[u(t[1])])
+			case "G":
+				res = h.keepSession(api(t[1]), u(t[2]), t[3])
+			case "H":
+				res = h.handmade(t[1], u(t[2]), t[3])
+			case "Y":
+				res = h.useKept(api(t[1]), t[2], t[3], t[4])
 			case "E":
 				k, _ := strconv.Atoi(t[4])
 				res = h.lookupErr(api(t[1]), u(t[2]), t[3], k)
